@@ -34,6 +34,14 @@ pub struct CompPlan {
     pub skip: Vec<(u32, Vec<u32>)>,
     /// (module index in component order, function, site, use inject_at instead of the cursor)
     pub sites: Vec<(u32, u32, Site, bool)>,
+    /// when the cursor path calls `finish_instr`: 0 after every site, 1 after function-level sites
+    /// only, 2 once per location after all of its sites, 3 never
+    #[serde(default = "one")]
+    pub finish: u8,
+}
+
+fn one() -> u8 {
+    1
 }
 
 fn leb(mut v: u64, out: &mut Vec<u8>) {
@@ -156,7 +164,12 @@ pub fn gen_c26(run_seed: u64) -> Result<Scenario, String> {
             })
             .collect();
         let instr = if matches!(mode, Mode::FuncEntry | Mode::FuncExit) {
-            0
+            // a function-level mode can be selected wherever the cursor stands
+            if rng.chance(1, 2) {
+                0
+            } else {
+                rng.below(body.len()) as u32
+            }
         } else {
             match rng.pick_opt(&idxs) {
                 Some(i) => *i,
@@ -174,6 +187,7 @@ pub fn gen_c26(run_seed: u64) -> Result<Scenario, String> {
         let use_inject_at = rng.chance(1, 3) && !matches!(mode, Mode::FuncEntry | Mode::FuncExit);
         plan.sites.push((k as u32, func, site, use_inject_at));
     }
+    plan.finish = *rng.pick(&[0u8, 1, 1, 2, 2, 2, 3]);
     let hash_seed = rng.next();
     Ok(Scenario {
         property: "C26".into(),
@@ -318,6 +332,7 @@ pub fn judge_c26(sc: &Scenario) -> (Judged, RunResult) {
                     if let (Location::Module { func_idx, instr_idx }, is_end) = it.curr_loc() {
                         let op = it.curr_op().map(Ins::from_op).unwrap_or(Ins::Unknown("none".into()));
                         // injections at this position
+                        let mut pending_finish = false;
                         for (si, (mk, f, s, at)) in plan.sites.iter().enumerate() {
                             if *mk as usize == k && *f == *func_idx {
                                 let ops: Vec<Operator> = read_ops(&arena[ranges[si].0..ranges[si].1]);
@@ -332,11 +347,17 @@ pub fn judge_c26(sc: &Scenario) -> (Judged, RunResult) {
                                     for op in ops {
                                         it.inject(op);
                                     }
-                                    if matches!(s.mode, Mode::FuncEntry | Mode::FuncExit) {
+                                    let fl = matches!(s.mode, Mode::FuncEntry | Mode::FuncExit);
+                                    if plan.finish == 0 || (plan.finish == 1 && fl) {
                                         it.finish_instr();
+                                    } else if plan.finish == 2 {
+                                        pending_finish = true;
                                     }
                                 }
                             }
+                        }
+                        if pending_finish {
+                            it.finish_instr();
                         }
                         traj.push((k as u32, *func_idx, instr_idx as u32, is_end, op));
                     }
@@ -386,6 +407,7 @@ pub fn judge_c26(sc: &Scenario) -> (Judged, RunResult) {
         loop {
             if let (Location::Component { mod_idx, func_idx, instr_idx }, is_end) = it.curr_loc() {
                 let op = it.curr_op().map(Ins::from_op).unwrap_or(Ins::Unknown("none".into()));
+                let mut pending_finish = false;
                 for (si, (mk, f, s, at)) in plan.sites.iter().enumerate() {
                     if *mk == *mod_idx && *f == *func_idx {
                         let ops: Vec<Operator> = read_ops(&arena[ranges[si].0..ranges[si].1]);
@@ -400,11 +422,17 @@ pub fn judge_c26(sc: &Scenario) -> (Judged, RunResult) {
                             for op in ops {
                                 it.inject(op);
                             }
-                            if matches!(s.mode, Mode::FuncEntry | Mode::FuncExit) {
+                            let fl = matches!(s.mode, Mode::FuncEntry | Mode::FuncExit);
+                            if plan.finish == 0 || (plan.finish == 1 && fl) {
                                 it.finish_instr();
+                            } else if plan.finish == 2 {
+                                pending_finish = true;
                             }
                         }
                     }
+                }
+                if pending_finish {
+                    it.finish_instr();
                 }
                 traj.push((*mod_idx, *func_idx, instr_idx as u32, is_end, op));
             }
